@@ -1,11 +1,43 @@
-# C13 — rendered time equals strftime of the instant (cached-string patching part)
-def sft(name, pattern, tier, ncalls=3, local=False, timeout=280):
-    return Q(name, 'C13_time.cpp', 'h_string_from_time', defines=['PATTERN="%s"' % pattern, 'NCALLS=%d' % ncalls] + (['LOCALTZ'] if local else []),
-             zero=[r'^_ZN?K?8fmtquill.*(locale|thousands_sep|decimal_point|format_facet|digit_grouping|write_loc)', r'^_ZNSt6locale', r'^_ZN8fmtquill3v116detail5writeIcNS0_14basic_appenderIcEE[def]'],
-             forbid=[r'^_ZN8fmtquill3v116detail(11write_float|12format_float|9dragonbox|14snprintf_float|6bigint|15format_hexfloat|10write_loc|5write.*(float|double|ld|e)E)'],
-             models=['m_throw.c', 'm_time.c', 'm_env.c'], libmodels=['m_string.c', 'm_stl.c'], unwind=24, unwindset=['strlen.0:40'], tier=tier, timeout=timeout,
-             bounds='pattern "%s", %s, %d calls with any instants (any order, repeats, backwards) in a 2-day window of ten-digit epochs' % (pattern, 'local zone UTC-5 or UTC+5:45' if local else 'GMT', ncalls),
-             what='real StringFromTime::init + format_timestamp: the incrementally patched cached string equals a fresh strftime rendering of each instant (no stale hour/minute/second/AM-PM field across second, minute, hour, noon, midnight and recalculation boundaries)')
-QUERIES = [sft('hms_gmt', '%H:%M:%S', 'quick'), sft('i_p_gmt', '%I:%M %p', 'quick', ncalls=2)]
-BOUNDS = ''
-OUTSIDE = ''
+# C13 (reduced) — rendered time: the cached, incrementally patched string equals a fresh rendering of each instant
+POP = r'^_ZN5quill2v96detail14StringFromTime49_populate_pre_formatted_string_and_cached_indexesEl=vh_populate'
+HOOKS = [r'^_ZN8fmtquill3v119format_toIPcJR?K?jE=vh_fmt_u32', r'^_ZN8fmtquill3v119format_toIPcJRlE=vh_fmt_i64', r'^_ZN5quill2v96detail14StringFromTime14_safe_strftimeEPKclNS0_8TimezoneE=vh_safe_strftime']
+def rlen(parts):
+    import re as _re
+    return sum(sum({'s': 10, 'u': 1, '%': 1}.get(c[1], 2) if c[0] == '%' else 1 for c in _re.findall(r'%.|.', p)) for p in parts)
+def sft(name, parts, tier, ncalls=3, local=False, tzany=False, window=172800, timeout=280, unwind=24):
+    pattern = ''.join(parts)
+    return Q(name, 'C13_sft.cpp', 'h_sft', defines=['PARTS=%s' % ','.join('"%s"' % p for p in parts), 'PATTERN="%s"' % pattern, 'NCALLS=%d' % ncalls, 'WINDOW=%d' % window, 'RLEN=%d' % rlen(parts)] + (['LOCALTZ'] if local else []) + (['TZANY'] if tzany else []),
+             hooks=HOOKS + [POP], byteloops=True, forbid=[r'^_ZN8fmtquill3v11(6detail)?10vformat_to'],
+             models=['m_throw.c', 'm_time.c', 'm_env.c'], libmodels=['m_string.c', 'm_stl.c'], unwind=unwind, unwindset=['_ZN5quill2v96detail14StringFromTime16format_timestampB5cxx11El.0:%d' % (sum(1 for p in parts if p in ('%H', '%M', '%S', '%I', '%k', '%l', '%s')) + 2)], cdefs=['VLL_TIME32', 'VLL_STR_NOGROW'], cbmc=['--slice-formula'], tier=tier, timeout=timeout,
+             bounds='pattern "%s" (split parts given), %s, %d calls with any instants (any order, repeats, backwards) in a %d-second window of ten-digit epochs starting at a midnight' % (pattern, ('a local zone at any quarter-hour offset -14h..+14h' if tzany else 'a local zone at UTC-5 / UTC+5:30 / UTC+5:45') if local else 'GMT', ncalls, window),
+             what='real StringFromTime::format_timestamp (+ _populate_pre_formatted_string_and_cached_indexes, _safe_strftime, next noon/midnight, next quarter hour): the incrementally patched cached string equals a fresh strftime rendering of each instant - no stale hour/minute/second/AM-PM/weekday field across second, minute, hour, noon, midnight and recalculation boundaries, nor after going back in time')
+def pop(name, parts, tier, local=False, window=172800, timeout=280, unwind=24):
+    pattern = ''.join(parts)
+    return Q(name, 'C13_sft.cpp', 'h_populate', defines=['PARTS=%s' % ','.join('"%s"' % p for p in parts), 'PATTERN="%s"' % pattern, 'WINDOW=%d' % window, 'RLEN=%d' % rlen(parts)] + (['LOCALTZ'] if local else []),
+             hooks=HOOKS, byteloops=True, forbid=[r'^_ZN8fmtquill3v11(6detail)?10vformat_to', r'^_ZNSt6vectorISt4pairImN5quill2v96detail14StringFromTime11format_typeEESaIS6_EE17_M_realloc_insert'],
+             models=['m_throw.c', 'm_time.c', 'm_env.c'], libmodels=['m_string.c', 'm_stl.c'], unwind=unwind, cdefs=['VLL_STR_NOGROW', 'VLL_TIME32'], tier=tier, timeout=timeout,
+             bounds='pattern "%s" (split parts given), %s, any instant in a %d-second window' % (pattern, 'a local zone at any quarter-hour offset -14h..+14h' if local else 'GMT', window),
+             what='real _populate_pre_formatted_string_and_cached_indexes == the plain-C contract used by the format_timestamp queries (cached instant, seconds of day, rendered parts, position and kind of each patchable field)')
+P_HMS = ['%H', ':', '%M', ':', '%S']
+P_12 = ['%I', ':', '%M', ' %p']
+P_LK = ['%l', '%p ', '%k']
+P_WD = ['%u ', '%H', ':', '%M']
+P_EP = ['%s', ' ', '%S']
+QUERIES = [sft('hms_gmt', P_HMS, 'quick', ncalls=2, unwind=12), pop('populate_hms_gmt', P_HMS, 'quick'),
+           sft('i_p_gmt', P_12, 'quick', ncalls=2, unwind=12), pop('populate_i_p_local', P_12, 'quick', local=True),
+           sft('hms_localany', P_HMS, 'quick', ncalls=2, unwind=12, local=True, tzany=True, timeout=900),
+           sft('weekday_gmt', P_WD, 'thorough', ncalls=2, unwind=12, timeout=1700), pop('populate_weekday_gmt', P_WD, 'thorough'),
+           sft('l_k_gmt', P_LK, 'thorough', ncalls=2, unwind=12, timeout=1700), pop('populate_l_k_gmt', P_LK, 'thorough'),
+           sft('epoch_gmt', P_EP, 'thorough', ncalls=2, unwind=14, timeout=1700), pop('populate_epoch_local', P_EP, 'thorough', local=True),
+           sft('i_p_local3', P_12, 'thorough', ncalls=2, unwind=12, local=True, timeout=1700),
+           sft('hms_gmt_n3', P_HMS, 'thorough', ncalls=3, unwind=12, timeout=1700)]
+BOUNDS = 'quick: %H:%M:%S (GMT and any quarter-hour local offset) and %I:%M %p (GMT), 2 calls, 2-day window; thorough: %l/%k, weekday, %s patterns, 3 calls'
+OUTSIDE = 'pattern splitting in init (std::map/find/replace: symbolic execution does not finish) - the split parts are given per query; TimestampFormatter (fractional digits, %Q specifiers, rejection of %X / two specifiers); libfmt digit rendering ({:02} {:2} {:10} = three-spec model); glibc strftime and the tz database incl. DST transitions (one fixed zone offset per run); dates (%Y %m %d); more than 3 calls'
+ASSUMPTIONS = ['libc gmtime_r/localtime_r/timegm/strftime = rt/m_time.c (exact h:m:s, day count, weekday; conversions %H %M %S %I %k %l %p %s %u; one fixed zone offset per run, multiple of 900 s)',
+               '_safe_strftime buffer growing replaced by a 40-byte block hook; fmtquill::format_to("{:02}"/"{:2}"/"{:10}") replaced by a hook model',
+               'assume/guarantee: format_timestamp queries use the plain-C contract of _populate_pre_formatted_string_and_cached_indexes, and the populate_* queries decide that the real function equals that contract']
+MANIFEST = {
+ 'text': 'Reduced scope (StringFromTime caching only). The solver decides on the real StringFromTime::format_timestamp, for every sequence of instants in the window (increasing, repeated, going backwards) and each bounded pattern, that the cached and incrementally patched string equals a fresh rendering of the same instant: hour/minute/second/12-hour/AM-PM/weekday/epoch fields are never stale across second, minute, hour, noon, midnight and quarter-hour recalculation boundaries, in GMT and in a local zone at any quarter-hour offset; and that the real _populate_pre_formatted_string_and_cached_indexes records exactly the right field positions and seconds-of-day (contract used by the first group). Not claimed: pattern splitting, TimestampFormatter fractional digits and specifier rejection, real strftime/tz database, DST transitions.',
+ 'note': 'Bounds: 2 (quick) / 3 (thorough) calls, 2-day window of ten-digit epochs, 5 patterns. libc time and libfmt digit rendering are models. Trusted: clang IR, translator, CBMC.',
+ 'technique': 'CBMC/SAT (kissat, sliced formula) over clang IR of the real StringFromTime functions vs a fresh-rendering oracle, symbolic instants and zone offset; assume/guarantee split with IR hooks; native replay',
+}
